@@ -184,6 +184,11 @@ pub fn open_store(o: &StoreOpts, path: &Path) -> surrealkv::Result<Tree> {
 	TreeBuilder::with_options(build_options(o, path)).build()
 }
 
+/// Plan timestamps are offsets from the simulated epoch.
+pub fn abs_ts(t: u64) -> u64 {
+	ip::SIM_EPOCH_NS + t
+}
+
 fn to_mode(m: ModeS) -> Mode {
 	match m {
 		ModeS::ReadWrite => Mode::ReadWrite,
@@ -499,6 +504,63 @@ impl Sh {
 		res
 	}
 
+	/// The checkpoint directory must open as a database with the checkpointed content.
+	async fn verify_checkpoint(&self) {
+		let cm = match self.checkpoint_model.borrow().clone() {
+			Some(m) => m,
+			None => return,
+		};
+		let src = self.checkpoint_dir();
+		let mut dst = src.clone();
+		dst.set_file_name(format!("{}_open", src.file_name().unwrap().to_string_lossy()));
+		let _ = std::fs::remove_dir_all(&dst);
+		fn copy_dir(a: &Path, b: &Path) -> std::io::Result<()> {
+			std::fs::create_dir_all(b)?;
+			for e in std::fs::read_dir(a)? {
+				let e = e?;
+				let p = e.path();
+				let q = b.join(e.file_name());
+				if p.is_dir() {
+					copy_dir(&p, &q)?;
+				} else {
+					std::fs::write(&q, std::fs::read(&p)?)?;
+				}
+			}
+			Ok(())
+		}
+		if let Err(e) = copy_dir(&src, &dst) {
+			self.fail("harness", format!("copying checkpoint failed: {}", e));
+			return;
+		}
+		match open_store(&self.plan.opts, &dst) {
+			Ok(t) => {
+				tokio::task::yield_now().await;
+				let mut keys = self.plan.keys.clone();
+				for k in cm.all_keys() {
+					if !keys.contains(&k) {
+						keys.push(k);
+					}
+				}
+				let want = cm.live(u64::MAX);
+				match crate::recovery::read_all(&t, &keys) {
+					Ok(got) => {
+						if got != want {
+							self.fail("standalone_mismatch", format!("checkpoint directory opened as a database shows {} entries, the checkpointed state has {} (first difference: {:?})", got.len(), want.len(), want.iter().find(|(k, v)| got.get(*k) != Some(*v)).map(|(k, _)| hex(k))));
+						}
+					}
+					Err(v) => self.fail(&v.class, format!("checkpoint directory opened standalone: {}", v.detail)),
+				}
+				let _ = self.drive(t.close()).await;
+				drop(t);
+				for _ in 0..3 {
+					tokio::task::yield_now().await;
+				}
+			}
+			Err(e) => self.fail("standalone_mismatch", format!("checkpoint directory does not open as a database: {}", e)),
+		}
+		let _ = std::fs::remove_dir_all(&dst);
+	}
+
 	/// close() issued while commits are in flight: drive close() from the root while the
 	/// actors keep being polled; afterwards every commit() must have returned.
 	pub async fn close_concurrently(self: &Rc<Self>) {
@@ -678,6 +740,7 @@ impl Sh {
 						w.wake();
 					}
 				}
+				Step::VerifyCheckpoint => self.verify_checkpoint().await,
 				Step::Advance { ns } => {
 					ip::advance_clock(*ns);
 					self.stats.borrow_mut().sim_time_ns += *ns;
@@ -1114,7 +1177,7 @@ impl Sh {
 			Step::Set { k, v, ts, .. } => {
 				let key = self.key(*k);
 				let val = value_bytes(v);
-				self.do_write(act, ai, Write { key, kind: Kind::Set, value: Some(val), ts: *ts });
+				self.do_write(act, ai, Write { key, kind: Kind::Set, value: Some(val), ts: ts.map(abs_ts) });
 			}
 			Step::Replace { k, v, .. } => {
 				let key = self.key(*k);
@@ -1123,11 +1186,11 @@ impl Sh {
 			}
 			Step::Delete { k, ts, .. } => {
 				let key = self.key(*k);
-				self.do_write(act, ai, Write { key, kind: Kind::Delete, value: None, ts: *ts });
+				self.do_write(act, ai, Write { key, kind: Kind::Delete, value: None, ts: ts.map(abs_ts) });
 			}
 			Step::SoftDelete { k, ts, .. } => {
 				let key = self.key(*k);
-				self.do_write(act, ai, Write { key, kind: Kind::SoftDelete, value: None, ts: *ts });
+				self.do_write(act, ai, Write { key, kind: Kind::SoftDelete, value: None, ts: ts.map(abs_ts) });
 			}
 			Step::Get { k, .. } => {
 				let key = self.key(*k);
@@ -1302,6 +1365,7 @@ impl Sh {
 					if !tm.closed && tm.mode != ModeS::WriteOnly && tm.writes.is_empty() && self.plan.opts.versioning {
 						self.stats.borrow_mut().reads += 1;
 						let m = self.model.borrow();
+						let ts = &abs_ts(*ts);
 						let want = m.get_at(&key, *ts, tm.horizon);
 						match txn.get_at(key.as_slice(), *ts) {
 							Ok(got) => {
@@ -1330,7 +1394,7 @@ impl Sh {
 					if !tm.closed && tm.mode != ModeS::WriteOnly && tm.writes.is_empty() && self.plan.opts.versioning {
 						let (lo_b, hi_b) = (self.key(*lo), self.key(*hi));
 						if lo_b <= hi_b {
-							self.history_check(txn, tm, ai, &lo_b, &hi_b, *tomb, *ts_range, *limit, *rev);
+							self.history_check(txn, tm, ai, &lo_b, &hi_b, *tomb, ts_range.map(|(a, b)| (abs_ts(a), abs_ts(b))), *limit, *rev);
 						}
 					}
 				}
